@@ -194,7 +194,11 @@ func c06Exec(cs *c06Case, cc *sut.Compiled) (*wk.Failure, c06Obs) {
 	case res.Budget:
 		return mk("budget", SiteName(res.AbortSite), fmt.Sprintf("%s did not return within %d simulated steps: a loop runs unboundedly on finite data (at %s)", what, C06Budget, SiteName(res.AbortSite))), obs
 	case res.Deadlock:
-		return mk("deadlock", "", what+" blocked for ever"), obs
+		var bl []string
+		for _, b := range res.Blocked {
+			bl = append(bl, fmt.Sprintf("%s blocked in %s at %s", b.Name, b.BlockOp, SiteName(b.BlockSite)))
+		}
+		return mk("deadlock", strings.Join(bl, "; "), what+" blocked for ever: "+strings.Join(bl, "; ")), obs
 	case escVal != "":
 		return mk("panic", escSite, fmt.Sprintf("%s: a Go panic escaped to the caller: %s", what, trunc(escVal, 300))), obs
 	case res.MainPanic != nil:
@@ -213,27 +217,73 @@ func c06Opts() gen.Opts {
 	return o
 }
 
+// globals files: the line grammar of soy.ParseGlobals is "<name> = <primitive literal>", with
+// comments and blank lines skipped.  The generator draws every part of a line from a table that
+// mixes ordinary and odd shapes (names with empty, dotted, doubled-dot or non-ASCII components,
+// separators with and without spaces, values of every literal kind and a few non-literals), and
+// then applies a few byte-level edits to the whole file.
+var (
+	globalNameParts = []string{"a", "A_1", "app", "VERSION", "x9", "\u00e9t\u00e9", "9x", "x y", "-", "$a", "", "", "_"}
+	globalSeps      = []string{" = ", " = ", " = ", "=", " =", "= ", " == ", " = = ", "\t=\t", ":", " ", ""}
+	globalValues    = []string{"1", "-7", "0x1F", "1.5", "1e3", "true", "false", "null", "'s'", "'it\\'s'", "'\\u00e9'", "'unterminated", "\"dq\"", "[1, 2, 'x']", "['a': 1]", "[]", "[:]",
+		"1 2 3", "$x", "A_1", "app.VERSION", "1 +", "", " ", "'a' + 'b'", "not true", "-", "9999999999999999999999", "'\\'", "// c", "1 // c", "{", "}", "{$x}"}
+	globalJunk = []string{"", "\n", "// comment\n", "/* block */\n", "   \n", "\t\n", "no equals here\n", "=\n", " = \n", "= 1\n", "#!shebang\n", "\r\n", "\x00\n", "\xff\xfe\n"}
+)
+
+func globalName(r *simrt.RNG) string {
+	n := 1 + r.Intn(3)
+	if r.Intn(6) == 0 {
+		n = 4 + r.Intn(3)
+	}
+	parts := make([]string, n)
+	for i := range parts {
+		parts[i] = globalNameParts[r.Intn(len(globalNameParts))]
+	}
+	name := strings.Join(parts, ".")
+	if r.Intn(40) == 0 {
+		name = strings.Repeat(name+".", 300)
+	}
+	return name
+}
+
 func globalsText(r *simrt.RNG, gc *gen.Case) string {
 	var sb strings.Builder
 	sb.WriteString("// generated globals\n\n")
 	for _, kv := range gc.Globals {
 		fmt.Fprintf(&sb, "%s = %s\n", kv.K, kv.V.Literal())
 	}
-	for i, n := 0, r.Intn(4); i < n; i++ {
-		switch r.Intn(5) {
+	for i, n := 0, r.Intn(6); i < n; i++ {
+		switch r.Intn(8) {
 		case 0:
 			fmt.Fprintf(&sb, "X%d = %s\n", i, gen.ChaosExprs[r.Intn(len(gen.ChaosExprs))])
 		case 1:
-			sb.WriteString("no equals here\n")
+			sb.WriteString(globalJunk[r.Intn(len(globalJunk))])
 		case 2:
-			fmt.Fprintf(&sb, "Y%d = 'unterminated\n", i)
-		case 3:
 			fmt.Fprintf(&sb, "  Z%d   =   [1, 2, 'x']  \n", i)
 		default:
-			fmt.Fprintf(&sb, "W%d = 1 2 3\n", i)
+			eol := "\n"
+			if r.Intn(8) == 0 {
+				eol = []string{"\r\n", "", "\n\n", " \n"}[r.Intn(4)]
+			}
+			sb.WriteString(globalName(r) + globalSeps[r.Intn(len(globalSeps))] + globalValues[r.Intn(len(globalValues))] + eol)
 		}
 	}
-	return sb.String()
+	g := sb.String()
+	// byte-level edits
+	for k, n := 0, r.Intn(3); k < n && len(g) > 0; k++ {
+		i := r.Intn(len(g))
+		switch r.Intn(4) {
+		case 0:
+			g = g[:i] + g[i+1:]
+		case 1:
+			g = g[:i] + string(g[i]) + g[i:]
+		case 2:
+			g = g[:i] + string([]byte{byte(r.Intn(256))}) + g[i:]
+		default:
+			g = g[:i] // no final newline, or cut in the middle of a line
+		}
+	}
+	return g
 }
 
 // C06 is the worker entry point for property C06.
